@@ -20,8 +20,9 @@ import sys
 import xml.etree.ElementTree as ET
 
 VERIF = os.path.dirname(os.path.dirname(os.path.abspath(__file__)))
-WT = "/tmp/seedwt"
-SB = "/tmp/seed_build"
+WT = os.environ.get("SEED_WT", "/tmp/seedwt")
+SB = os.environ.get("SEED_SB", "/tmp/seed_build")
+JUNIT = WT.rstrip("/") + "_junit.xml"
 
 
 def sh(cmd, cwd=None, env=None, timeout=7200):
@@ -48,8 +49,8 @@ def run_suite():
     stable = [s.split("::")[0] for s in base["stable_pass"]]
     bad_total = None
     for attempt in range(2):
-        sh("ctest --test-dir _build -j8 --timeout 900 --output-junit /tmp/seed_junit.xml", cwd=WT)
-        t = ET.parse("/tmp/seed_junit.xml").getroot()
+        sh("ctest --test-dir _build -j8 --timeout 900 --output-junit %s" % JUNIT, cwd=WT)
+        t = ET.parse(JUNIT).getroot()
         status = {}
         for tc in t.iter("testcase"):
             ok = tc.find("failure") is None and tc.find("error") is None and tc.get("status", "run") in ("run", "passed")
